@@ -47,6 +47,7 @@ Definition F_hup_leader_sig := 24%N.    (* a spotlight whose leader ignores SIGH
 Definition F_sig_cleanup1 := 25%N.      (* SIGINT / SIGTERM while the initial cleanups (2 s) are running *)
 Definition F_setsid := 26%N.            (* a spotlight's descendant in another session holds its output pipe *)
 Definition F_two_sigints := 27%N.       (* a never-ending action, SIGINT, a second SIGINT 2 s later *)
+Definition F_mood_foul_S := 29%N.       (* no actors, mood-only scenes 1 ms apart, 400 auditors fouled by the first, -S *)
 Definition F_read_stdin := 28%N.        (* shakespeare's stdin stays open; cleanups, actions, a spotlight read theirs *)   (* -S foul during a long action, chatty spotlight *)
 Definition is_hang (f : N) : bool := (13 <=? f)%N && (f <=? 19)%N.
 
@@ -164,7 +165,7 @@ Definition labels_of (f : N) : bool * list label :=
   else if (f =? F_clean_fails_1)%N then (false, [LCleanup1 false])
   else if (f =? F_clean_fails_2)%N then
     (false, [LCleanup1 true; LScene; LScene; LScene; LFinP true ENil; LPick CP] ++ tail_ok ++ [LDefer false; LCleanup2 false])
-  else if (f =? F_foul_S)%N || (f =? F_expr_S)%N || (f =? F_foul_S_chatty)%N then
+  else if (f =? F_foul_S)%N || (f =? F_expr_S)%N || (f =? F_foul_S_chatty)%N || (f =? F_mood_foul_S)%N then
     (false, [LCleanup1 true; LScene; LFin CK EViol; LPick CK] ++ tail_cancelled CK ++ [LDefer true; LCleanup2 true])
   else if (f =? F_expr)%N then
     (false, [LCleanup1 true; LScene; LScene; LScene; LFinP true ENil; LPick CP;
@@ -225,7 +226,11 @@ Definition c07_model_bad (c : fcase) : bool :=
     pkg/cmd/verif_c07.go; deterministic, no signal timing).
     kind 0: runScene on a scene of [s_nlines] lines with a stopper already
     quiescing; kind 1: prompt, the stopper quiescing exactly when the
-    [s_k]-th non-empty scene (of [s_nscenes]) is announced. *)
+    [s_k]-th non-empty scene (of [s_nscenes]) is announced; kind 2: runScene on
+    [s_nlines] mood-only lines, nobody receiving from the audition channel, the
+    context cancelled after 100 ms; kind 3: prompt on a mood-only play, the
+    audition's stand-in receiving [s_k] events and then no more, the context
+    cancelled (hook pkg/cmd/verif_c07_mood.go). *)
 Record scase := mkScase {
   s_kind : N; s_k : N; s_nscenes : N; s_nlines : N;
   s_returned : bool;       (* the call returned within 20 s *)
@@ -246,4 +251,9 @@ Definition barrier_opens (nlines : N) : bool :=
   | Some s => (wg_count s =? 0) && Nat.eqb (wg_running s) 0
   | None => false
   end.
-Definition c07_stop_model_bad (c : scase) : bool := negb (Bool.eqb (barrier_opens (s_nlines c)) (s_returned c)).
+Definition collect_reads (nlines : N) : bool :=
+  (* the first mood-only line fails (cancelled while blocked) *)
+  Nat.leb 1 (errch_at_collect true (SLMood true :: repeat (SLMood false) (N.to_nat nlines - 1))).
+Definition c07_stop_model_bad (c : scase) : bool :=
+  if (s_kind c <=? 1)%N then negb (Bool.eqb (barrier_opens (s_nlines c)) (s_returned c))
+  else negb (Bool.eqb (collect_reads (s_nlines c)) (s_returned c)).
